@@ -18,6 +18,7 @@ type Term interface{}
 type Var struct {
 	id  int64
 	ref Term
+	ctx bool // stands for the context argument of a built-in's error term: implementation defined
 }
 type Atom string
 type Int int64
@@ -66,11 +67,12 @@ type workExceeded struct{}
 
 // base holds bindings, the work budget and the STO flag.
 type base struct {
-	trail   []*Var
-	sto     bool // a unification was performed that the occurs check would have rejected
-	work    int
-	maxWork int
-	varSeq  int64
+	trail     []*Var
+	sto       bool // a unification was performed that the occurs check would have rejected
+	ctxTested bool // an implementation-defined error context decided a unification
+	work      int
+	maxWork   int
+	varSeq    int64
 }
 
 func (m *base) newVar() *Var { m.varSeq++; return &Var{id: m.varSeq} }
@@ -99,6 +101,19 @@ func (m *base) occursIn(v *Var, t Term) bool {
 }
 
 func (m *base) bind(v *Var, t Term) {
+	if v.ctx {
+		// the context of a built-in's error is put to the test (unified with something that is not a plain variable:
+		// a structured catcher, the context of another error): what happens is up to the implementation
+		w, ok := deref(t).(*Var)
+		if !ok || w.ctx {
+			m.ctxTested = true
+		} else if w != v {
+			// aliased with a plain variable: that variable now stands for the context too
+			w.ref = v
+			m.trail = append(m.trail, w)
+			return
+		}
+	}
 	if m.occursIn(v, t) {
 		m.sto = true
 		return
@@ -270,6 +285,7 @@ func (m *base) copyTerm(t Term, ren map[*Var]Term) Term {
 			return c
 		}
 		c := m.newVar()
+		c.ctx = x.ctx
 		ren[x] = c
 		return c
 	case *Comp:
